@@ -53,7 +53,7 @@ using namespace glmx;
 #define C17_VEC4_SSSV1 0
 #endif
 
-enum { KF_SAME_SWIZZLE_ASSIGN = 0 };
+enum { KF_SAME_SWIZZLE_ASSIGN = 0, KF_VEC4_3LETTER_W_NOT_WRITABLE, KF_VEC2_3LETTER_NO_CONVERSION, KF_ALIGNED_OTHER_NO_CONVERSION, KF_FREE_XYZZ_VEC4_MISSING, KF_ALIGNED_UVEC2, KF_ALIGNED_VEC2_3LETTER, KF_VEC4_SSSV1, KF_ALIGNED_VEC2_WIDE_LOAD };
 
 // =========================================================================================== the name alphabet
 // X(S, NAME, N, i0, i1, i2, i3): letter set S (0 xyzw, 1 rgba, 2 stpq), the identifier, its length and the index of
@@ -103,6 +103,13 @@ static const char* qname(glm::qualifier q) {
 #endif
   } return "?"; }
 
+static bool is_aligned_q(glm::qualifier q) {
+#if C17_ALIGNED
+  return q == glm::aligned_highp || q == glm::aligned_mediump || q == glm::aligned_lowp;
+#else
+  (void)q; return false;
+#endif
+}
 // source tags for the accessor part: 4 distinct values per pattern; bool: the pattern is a 4-bit mask (all 16 masks enumerated)
 enum { NPAT_NUM = 4, NPAT_BOOL = 16 };
 template <typename T> static inline T tag(int pat, int i) {
@@ -120,7 +127,7 @@ template <int N, typename T, glm::qualifier Q> static inline int put(T* out, con
 
 // =========================================================================================== A. reading accessors
 enum { IMPL_FREE = 0, IMPL_MEMBER = 1, IMPL_OPER = 2 };
-enum { R_INVALID = -1, R_MISSING = -2, R_EXCLUDED = -3 };
+enum { R_INVALID = -1, R_MISSING = -2, R_EXCLUDED = -3, R_NOTWRITABLE = -4 };
 
 // ---- gtx/vec_swizzle free functions (xyzw names only); a name without a viable overload is reported, not a build failure
 #define X(S, NAME, N, i0, i1, i2, i3) \
@@ -185,7 +192,11 @@ template <int IMPL, int L, typename T, glm::qualifier Q> static void op_read(con
   o.cls(nm.n - 2); char m[160];
   if (n == R_EXCLUDED) { o.nontrivial = false; return; }   // reported once per family by op_excluded
   if (n == R_INVALID) { o.bad(91, "ORACLE: accessor dispatch does not know this name"); return; }
-  if (n == R_MISSING) { std::snprintf(m, sizeof m, "%s of a vec%d<%s,%s>: the accessor does not exist / has no value conversion (using it does not compile)", nm.s, L, TN<T>::name(), qname(Q)); o.res((uint64_t)code); o.bad(30 + nm.n, m); return; }
+  if (n == R_MISSING) {
+    if (IMPL == IMPL_OPER && L == 2 && nm.n == 3) o.kf = KF_VEC2_3LETTER_NO_CONVERSION;                                           // GLM_SWIZZLE2_3_MEMBERS passes E3 = -1, the value conversion is specialised for E3 = 3
+    else if (IMPL == IMPL_OPER && is_aligned_q(Q) && !std::is_same<T, float>::value && !std::is_same<T, int>::value && !std::is_same<T, glm::uint>::value) o.kf = KF_ALIGNED_OTHER_NO_CONVERSION;   // only float/int/uint have an aligned _swizzle_base1
+    else if (IMPL == IMPL_FREE && L == 4 && nm.n == 4 && nm.idx[0] == 0 && nm.idx[1] == 1 && nm.idx[2] == 2 && nm.idx[3] == 2) o.kf = KF_FREE_XYZZ_VEC4_MISSING;
+    std::snprintf(m, sizeof m, "%s of a vec%d<%s,%s>: the accessor does not exist / has no value conversion (using it does not compile)", nm.s, L, TN<T>::name(), qname(Q)); o.res((uint64_t)code); o.bad(30 + nm.n, m); return; }
   if (n != nm.n) { std::snprintf(m, sizeof m, "%s of a vec%d<%s>: result has %d components, the name has %d", nm.s, L, TN<T>::name(), n, nm.n); o.res((uint64_t)n); o.exp((uint64_t)nm.n); o.bad(2, m); return; }
   for (int k = 0; k < nm.n; ++k) if (bits_of(out[k]) != bits_of(src[nm.idx[k]])) {
     std::snprintf(m, sizeof m, "%s of a vec%d<%s,%s>: result component %d is not source component %d", nm.s, L, TN<T>::name(), qname(Q), k, nm.idx[k]);
@@ -207,17 +218,17 @@ static void op_excluded(const Case& c, Outcome& o) {
   switch ((int)c.w[0]) {
     case 0:
 #if C17_OPER && C17_ALIGNED && !defined(C17_HAVE_ALIGNED_UVEC2_SWIZZLE)
-      o.bad(40, "2-letter operator swizzles of aligned uint vectors (e.g. aligned_uvec4::xy) do not compile: type_vec_simd.inl _swizzle_base1<L,uint,Q,..,true> assigns __m128i to the 8-byte storage of vec<2,uint,aligned>"); return;
+      o.kf = KF_ALIGNED_UVEC2; o.bad(40, "2-letter operator swizzles of aligned uint vectors (e.g. aligned_uvec4::xy) do not compile: type_vec_simd.inl _swizzle_base1<L,uint,Q,..,true> assigns __m128i to the 8-byte storage of vec<2,uint,aligned>"); return;
 #endif
       break;
     case 1:
 #if C17_OPER && C17_ALIGNED && !defined(C17_HAVE_ALIGNED_VEC2_3LETTER)
-      o.bad(41, "3-letter operator swizzles of aligned float/int/uint vec2 (e.g. aligned_vec2::xxy) do not compile with this compiler: _MM_SHUFFLE(E3=-1,..) is not an 8-bit immediate"); return;
+      o.kf = KF_ALIGNED_VEC2_3LETTER; o.bad(41, "3-letter operator swizzles of aligned float/int/uint vec2 (e.g. aligned_vec2::xxy) do not compile with this compiler: _MM_SHUFFLE(E3=-1,..) is not an 8-bit immediate"); return;
 #endif
       break;
     case 2:
 #if !C17_VEC4_SSSV1
-      o.bad(42, "vec4(scalar, scalar, scalar, vec1) does not compile: of the 16 scalar/vec1 mixes only (X, Y, Z, vec<1,W,Q>) is not declared, the generic template static_casts the vec1"); return;
+      o.kf = KF_VEC4_SSSV1; o.bad(42, "vec4(scalar, scalar, scalar, vec1) does not compile: of the 16 scalar/vec1 mixes only (X, Y, Z, vec<1,W,Q>) is not declared, the generic template static_casts the vec1"); return;
 #endif
       break;
   }
@@ -235,15 +246,16 @@ template <int N, int L, typename T, glm::qualifier Q, class S, class V> static i
   switch (op) {
     case W_ASSIGN_VEC: s = r; return 1; case W_ASSIGN_SCALAR: s = rhs[0]; return 1; case W_ADD: s += r; return 1; case W_SUB: s -= r; return 1; case W_MUL: s *= r; return 1; case W_DIV: s /= r; return 1;
     case W_ASSIGN_OTHER_SAME: s = us; return 1;
-    case W_ASSIGN_SELF_FIRST: s = first_of<N>(v); return 1;
-    case W_ASSIGN_SELF_REV: s = rev_of<N>(v); return 1;
+    case W_ASSIGN_SELF_FIRST: if constexpr (has_call<S>::value && !excluded<L, N, T, glm::detail::is_aligned<Q>::value>::value) { s = first_of<N>(v); return 1; } else return R_MISSING;   // needs the proxy -> vec conversion (its absence is reported by the read ops)
+    case W_ASSIGN_SELF_REV: if constexpr (has_call<S>::value && !excluded<L, N, T, glm::detail::is_aligned<Q>::value>::value) { s = rev_of<N>(v); return 1; } else return R_MISSING;
   }
   if constexpr (N == L) switch (op) { case W_ASSIGN_SELF: s = v; return 1; case W_ADD_SELF: s += v; return 1; case W_SUB_SELF: s -= v; return 1; case W_MUL_SELF: s *= v; return 1; case W_DIV_SELF: s /= v; return 1; }
   return R_INVALID;
 }
 template <int L, class V, typename T, glm::qualifier Q> static int write_impl(V& v, V& u, int code, int op, const T* rhs) {
   switch (code) {
-#define X(S, NAME, N, i0, i1, i2, i3) case C17_CODE(S, N, i0, i1, i2, i3): if constexpr (C17_MAX4(i0, i1, i2, i3) < L && C17_DUPFREE(N, i0, i1, i2, i3)) return wr<N, L, T, Q>(v.NAME, v, op, rhs, u.NAME); else return R_INVALID;
+#define X(S, NAME, N, i0, i1, i2, i3) case C17_CODE(S, N, i0, i1, i2, i3): if constexpr (C17_MAX4(i0, i1, i2, i3) < L && C17_DUPFREE(N, i0, i1, i2, i3)) { \
+      if constexpr (std::is_assignable<decltype((v.NAME)), glm::vec<N, T, Q> const&>::value) return wr<N, L, T, Q>(v.NAME, v, op, rhs, u.NAME); else return R_NOTWRITABLE; } else return R_INVALID;
     C17_ALL(X)
 #undef X
   } return R_INVALID;
@@ -270,11 +282,16 @@ template <int L, typename T, glm::qualifier Q> static void op_write(const Case& 
         case W_ASSIGN_VEC: e = (M)rhs[j]; break; case W_ASSIGN_SCALAR: e = (M)rhs[0]; break; case W_ADD: e = (M)(e + (M)rhs[j]); break; case W_SUB: e = (M)(e - (M)rhs[j]); break; case W_MUL: e = (M)(e * (M)rhs[j]); break; case W_DIV: e = (M)(e / (M)rhs[j]); break;
         case W_ASSIGN_OTHER_SAME: e = (M)(T)OTHER[nm.idx[j]]; break; case W_ASSIGN_SELF_FIRST: e = old[j]; break; case W_ASSIGN_SELF_REV: e = old[nm.n - 1 - j]; break;
         case W_ASSIGN_SELF: e = old[j]; break; case W_ADD_SELF: e = (M)(e + old[j]); break; case W_SUB_SELF: e = (M)(e - old[j]); break; case W_MUL_SELF: e = (M)(e * old[j]); break;
-        case W_DIV_SELF: t = old[j]; if (t == (M)0) { o.nontrivial = false; return; } e = (M)(e / t); break; } }
+        case W_DIV_SELF: t = old[j]; if (t == (M)0 || std::is_integral<T>::value) { o.nontrivial = false; return; } e = (M)(e / t); break; } }   // integer self-division is left to the float types: a faulty aliasing could trap on a zero quotient
     if (std::is_same<T, int>::value) for (int i = 0; i < L; ++i) if ((long long)m[i] > (1ll << 30) || (long long)m[i] < -(1ll << 30)) { o.nontrivial = false; return; }   // would overflow int: outside the operator's domain
     // ---- the real object
     unsigned char before[sizeof(V)]; std::memcpy(before, &v, sizeof(V));
-    if (write_impl<L, V, T, Q>(v, u, code, op, rhs) != 1) { o.bad(93, "ORACLE: write dispatch does not know this (name, op)"); return; }
+    { int rc = write_impl<L, V, T, Q>(v, u, code, op, rhs); if (rc == R_MISSING) { o.nontrivial = false; return; }
+      if (rc == R_NOTWRITABLE) { if (step > 0 || op != W_ASSIGN_VEC) { o.nontrivial = false; return; }   // reported once per name, at the first write form
+        char msg[160]; std::snprintf(msg, sizeof msg, "duplicate-free swizzle %s of vec%d<%s,%s> is not writable (v.%s = vec%d does not compile)", nm.s, L, TN<T>::name(), qname(Q), nm.s, nm.n);
+        bool has3 = false; for (int j = 0; j < nm.n; ++j) has3 = has3 || nm.idx[j] == 3; if (L == 4 && nm.n == 3 && has3) o.kf = KF_VEC4_3LETTER_W_NOT_WRITABLE;
+        o.res((uint64_t)code); o.bad(70, msg); return; }
+      if (rc != 1) { o.bad(93, "ORACLE: write dispatch does not know this (name, op)"); return; } }
     for (int i = 0; i < L; ++i) if (bits_of((T)v[i]) != bits_of((T)m[i])) {
       bool named = false; for (int j = 0; j < nm.n; ++j) named = named || nm.idx[j] == i;
       char msg[160]; std::snprintf(msg, sizeof msg, "step %d: %s with S=%s on vec%d<%s,%s>: component %d (%s by S) differs from the array model", step, WNAME[op], nm.s, L, TN<T>::name(), qname(Q), i, named ? "named" : "NOT named");
@@ -352,7 +369,7 @@ template <typename T, glm::qualifier Q> static void op_wide_load(const Case& c, 
   static std::once_flag once; std::call_once(once, [&]() { sigaction(SIGSEGV, &sa, &old1); sigaction(SIGBUS, &sa, &old2); });
   T out[4] = {T(0), T(0), T(0), T(0)}; volatile bool crashed = false;
   if (sigsetjmp(g_jmp, 1) == 0) { g_armed = 1; wide_read<T, Q>(p, out); g_armed = 0; } else crashed = true;
-  if (crashed) { o.res(8 * (c.w[0] & 3)); o.bad(60, "aligned vec2 .yxyx faults: the SIMD swizzle does a 16-byte aligned load from an 8-byte, 8-byte-aligned object (reads past the vector)"); return; }
+  if (crashed) { o.res(8 * (c.w[0] & 3)); o.kf = KF_ALIGNED_VEC2_WIDE_LOAD; o.bad(60, "aligned vec2 .yxyx faults: the SIMD swizzle does a 16-byte aligned load from an 8-byte, 8-byte-aligned object (reads past the vector)"); return; }
   const T want[4] = {tag<T>(0, 1), tag<T>(0, 0), tag<T>(0, 1), tag<T>(0, 0)};
   for (int k = 0; k < 4; ++k) if (bits_of(out[k]) != bits_of(want[k])) { o.res(bits_of(out[k]), (uint64_t)k); o.exp(bits_of(want[k])); o.bad(61, "aligned vec2 .yxyx: wrong component"); return; }
 }
@@ -562,7 +579,8 @@ static void op_qua(const Case& c, Outcome& o) { o.cls(0); const int form = (int)
 static void op_config(const Case&, Outcome& o) { o.cls(0); o.res((uint64_t)GLM_CONFIG_SWIZZLE, (uint64_t)C17_ALIGNED); }
 
 int main(int argc, char** argv) {
-  Engine E; E.property = "C17"; E.kf_ids = {"KF-C17-same-swizzle-copy-assign"};
+  Engine E; E.property = "C17"; E.kf_ids = {"KF-C17-same-swizzle-copy-assign", "KF-C17-vec4-3letter-w-not-writable", "KF-C17-vec2-3letter-no-conversion", "KF-C17-aligned-other-types-no-conversion", "KF-C17-free-xyzz-vec4-missing",
+               "KF-C17-aligned-uvec2-swizzle-ill-formed", "KF-C17-aligned-vec2-3letter-ill-formed", "KF-C17-vec4-sssv1-not-declared", "KF-C17-aligned-vec2-wide-load"};
   E.assumptions = {"the index tuple of a swizzle name is derived from the position of each letter in xyzw / rgba / stpq inside this driver (token pasting), never read from GLM",
                    "gtx/vec_swizzle.hpp offers xyzw names only; rgba / stpq are checked in the member-function and operator forms",
                    "vec1 has no member/operator swizzles in this tree (commented out in type_vec1.hpp); vec1 sources are checked through the free functions only",
@@ -574,39 +592,24 @@ int main(int argc, char** argv) {
   E.extra_json["aligned_types"] = C17_ALIGNED ? "true" : "false";
   { Op& op = E.add("configuration read-back (GLM_CONFIG_SWIZZLE, aligned gentypes)", op_config); op.quick = {range("ONE", 0, 1, true)}; op.classes = {"checked"}; }
   typedef glm::uint uint_t;
-  // ---------------- part 0: free functions, quaternions, shape conversions
-#if PART(0)
+  // Part table (NPARTS = 19).  Operator-swizzle build: 0 excluded families / wide loads / aligned double, 1-6 packed reads (float, int, double; vec2+vec3 | vec4),
+  // 7-12 aligned reads (float, int, uint), 13-18 write sequences + swizzle constructors.  Other builds: 0 free functions / quaternions / shape conversions,
+  // 1-3 member-function reads (GLM_FORCE_SWIZZLE only), 4-10 vector constructors per element type, 11-13 matrix constructors; 14-18 hold the read-back only.
 #define FREE_ALL(T, Q) reg_read<IMPL_FREE, 1, T, glm::Q>(E); reg_read234<IMPL_FREE, T, glm::Q>(E);
-  FREE_ALL(float, highp) FREE_ALL(int, highp) FREE_ALL(uint_t, highp) FREE_ALL(double, highp) FREE_ALL(bool, highp) FREE_ALL(float, mediump) FREE_ALL(float, lowp)
-#if C17_ALIGNED && !C17_OPER
-  FREE_ALL(float, aligned_highp) FREE_ALL(int, aligned_highp) FREE_ALL(double, aligned_highp)
-#endif
-  { Op& op = E.add("quaternion constructors: (w,x,y,z), wxyz(), (s, vec3), cross-type, cross-qualifier", op_qua); op.quick = {product("forms x type/qualifier pairs x patterns", {range("form", 0, 5, true), range("types", 0, C17_ALIGNED ? 8 : 5, true), range("pattern", 0, NPAT_CTOR, true)})}; op.classes = {"checked"}; }
-  reg_shapes<float>(E); reg_shapes<int>(E); reg_shapes<double>(E);
-  { Op& op = E.add("accessor / constructor families excluded from this build because they do not compile", op_excluded); op.quick = {range("family", 0, 3, true)}; op.classes = {"checked"}; }
-#endif
-  // ---------------- parts 1-3: member-function swizzles
-#if C17_FUNC
-#if PART(1)
-  reg_read234<IMPL_MEMBER, float, glm::highp>(E); reg_read234<IMPL_MEMBER, bool, glm::highp>(E);
-#endif
-#if PART(2)
-  reg_read234<IMPL_MEMBER, int, glm::highp>(E); reg_read234<IMPL_MEMBER, uint_t, glm::highp>(E);
-#endif
-#if PART(3)
-  reg_read234<IMPL_MEMBER, double, glm::highp>(E); reg_read234<IMPL_MEMBER, float, glm::lowp>(E);
-#endif
-#endif
-  // ---------------- parts 1-12: operator swizzles (reads), 13-16 writes and swizzle constructors
-#if C17_OPER
-#if PART(0)
-#if C17_ALIGNED
-  { Op& op = E.add("aligned vec2<float> .yxyx at every 8-byte aligned address", op_wide_load<float, glm::aligned_highp>); op.quick = {range("offset/8", 0, 4, true)}; op.classes = {"checked"}; }
-  { Op& op = E.add("aligned vec2<int> .yxyx at every 8-byte aligned address", op_wide_load<int, glm::aligned_highp>); op.quick = {range("offset/8", 0, 4, true)}; op.classes = {"checked"}; }
-#endif
-#endif
 #define OPER_LO(T, Q) reg_read<IMPL_OPER, 2, T, glm::Q>(E); reg_read<IMPL_OPER, 3, T, glm::Q>(E);
 #define OPER_HI(T, Q) reg_read<IMPL_OPER, 4, T, glm::Q>(E);
+#define WRITE_ALL(T, Q) reg_write<2, T, glm::Q>(E, 3, 3); reg_write<3, T, glm::Q>(E, 2, 3); reg_write<4, T, glm::Q>(E, 2, 2);
+#define SWZCTOR_ALL(T, Q) reg_swzctor<2, T, glm::Q>(E); reg_swzctor<3, T, glm::Q>(E); reg_swzctor<4, T, glm::Q>(E);
+#if PART(0)
+  { Op& op = E.add("accessor / constructor families excluded from this build because they do not compile", op_excluded); op.quick = {range("family", 0, 3, true)}; op.classes = {"checked"}; }
+#endif
+#if C17_OPER
+  // ======== operator-swizzle build: only what is specific to it (every vec temporary is very slow to compile under g++ in this mode)
+#if PART(0) && C17_ALIGNED
+  { Op& op = E.add("aligned vec2<float> .yxyx at every 8-byte aligned address", op_wide_load<float, glm::aligned_highp>); op.quick = {range("offset/8", 0, 4, true)}; op.classes = {"checked"}; }
+  { Op& op = E.add("aligned vec2<int> .yxyx at every 8-byte aligned address", op_wide_load<int, glm::aligned_highp>); op.quick = {range("offset/8", 0, 4, true)}; op.classes = {"checked"}; }
+  reg_read234<IMPL_OPER, double, glm::aligned_highp>(E);      // no value conversion exists on this tree: every name is reported, nothing heavy is instantiated
+#endif
 #if PART(1)
   OPER_LO(float, highp)
 #endif
@@ -625,92 +628,95 @@ int main(int argc, char** argv) {
 #if PART(6)
   OPER_HI(double, highp)
 #endif
-#if PART(7)
-  OPER_LO(uint_t, highp)
-#endif
-#if PART(8)
-  OPER_HI(uint_t, highp)
-#endif
 #if C17_ALIGNED
-#if PART(9)
+#if PART(7)
   OPER_LO(float, aligned_highp)
 #endif
-#if PART(10)
+#if PART(8)
   OPER_HI(float, aligned_highp)
 #endif
-#if PART(11)
+#if PART(9)
   OPER_LO(int, aligned_highp)
 #endif
-#if PART(12)
+#if PART(10)
   OPER_HI(int, aligned_highp)
 #endif
-#if PART(13)
+#if PART(11)
   OPER_LO(uint_t, aligned_highp)
 #endif
-#if PART(14)
+#if PART(12)
   OPER_HI(uint_t, aligned_highp)
 #endif
+#endif
+#if PART(13)
+  WRITE_ALL(float, highp) SWZCTOR_ALL(float, highp)
+#endif
+#if PART(14)
+  WRITE_ALL(int, highp) SWZCTOR_ALL(int, highp)
+#endif
 #if PART(15)
-  reg_read234<IMPL_OPER, double, glm::aligned_highp>(E);      // no value conversion exists: every name is reported, nothing heavy is instantiated
-  reg_read234<IMPL_OPER, bool, glm::highp>(E);
-#endif
-#endif
-#define WRITE_ALL(T, Q) reg_write<2, T, glm::Q>(E, 3, 3); reg_write<3, T, glm::Q>(E, 2, 3); reg_write<4, T, glm::Q>(E, 2, 2); reg_swzctor<2, T, glm::Q>(E); reg_swzctor<3, T, glm::Q>(E); reg_swzctor<4, T, glm::Q>(E);
-#if PART(16)
-  WRITE_ALL(float, highp)
-#endif
-#if PART(17)
-  WRITE_ALL(int, highp)
-#endif
-#if PART(18)
-  WRITE_ALL(double, highp)
-#endif
-#if PART(19)
-  WRITE_ALL(uint_t, highp)
+  WRITE_ALL(double, highp) SWZCTOR_ALL(double, highp)
 #endif
 #if C17_ALIGNED
-#if PART(20)
-  WRITE_ALL(float, aligned_highp)
+#if PART(16)
+  WRITE_ALL(float, aligned_highp) SWZCTOR_ALL(float, aligned_highp)
 #endif
-#if PART(21)
-  WRITE_ALL(int, aligned_highp)
+#if PART(17)
+  WRITE_ALL(int, aligned_highp) SWZCTOR_ALL(int, aligned_highp)
 #endif
-#if PART(22)
-  reg_write<2, double, glm::aligned_highp>(E, 3, 3); reg_write<3, double, glm::aligned_highp>(E, 2, 3); reg_write<4, double, glm::aligned_highp>(E, 2, 2);
-  reg_write<2, uint_t, glm::aligned_highp>(E, 3, 3); reg_write<3, uint_t, glm::aligned_highp>(E, 2, 3); reg_write<4, uint_t, glm::aligned_highp>(E, 2, 2);
+#if PART(18)
+  WRITE_ALL(double, aligned_highp) WRITE_ALL(uint_t, aligned_highp)
 #endif
 #endif
-#endif  // C17_OPER
-  // ---------------- constructors (not in the operator-swizzle build unless asked for: every vec temporary is very slow to compile there)
-#if !C17_OPER || defined(C17_CTORS_WITH_OPERATOR_SWIZZLE)
-#if PART(23)
+#else
+  // ======== builds without operator swizzles
+#if PART(0)
+  FREE_ALL(float, highp) FREE_ALL(int, highp) FREE_ALL(uint_t, highp) FREE_ALL(double, highp) FREE_ALL(bool, highp) FREE_ALL(float, mediump) FREE_ALL(float, lowp)
+#if C17_ALIGNED
+  FREE_ALL(float, aligned_highp) FREE_ALL(int, aligned_highp) FREE_ALL(double, aligned_highp)
+#endif
+  { Op& op = E.add("quaternion constructors: (w,x,y,z), wxyz(), (s, vec3), cross-type, cross-qualifier", op_qua); op.quick = {product("forms x type/qualifier pairs x patterns", {range("form", 0, 5, true), range("types", 0, C17_ALIGNED ? 8 : 5, true), range("pattern", 0, NPAT_CTOR, true)})}; op.classes = {"checked"}; }
+  reg_shapes<float>(E); reg_shapes<int>(E); reg_shapes<double>(E);
+#endif
+#if C17_FUNC
+#if PART(1)
+  reg_read234<IMPL_MEMBER, float, glm::highp>(E); reg_read234<IMPL_MEMBER, bool, glm::highp>(E);
+#endif
+#if PART(2)
+  reg_read234<IMPL_MEMBER, int, glm::highp>(E); reg_read234<IMPL_MEMBER, uint_t, glm::highp>(E);
+#endif
+#if PART(3)
+  reg_read234<IMPL_MEMBER, double, glm::highp>(E); reg_read234<IMPL_MEMBER, float, glm::lowp>(E); reg_read234<IMPL_MEMBER, float, glm::mediump>(E);
+#endif
+#endif
+#if PART(4)
   reg_vec_ctors<float>(E);
 #endif
-#if PART(24)
+#if PART(5)
   reg_vec_ctors<int>(E);
 #endif
-#if PART(25)
+#if PART(6)
   reg_vec_ctors<double>(E);
 #endif
-#if PART(26)
+#if PART(7)
   reg_vec_ctors<uint_t>(E);
 #endif
-#if PART(27)
+#if PART(8)
   reg_vec_ctors<glm::int8>(E);
 #endif
-#if PART(28)
+#if PART(9)
   reg_vec_ctors<glm::uint16>(E);
 #endif
-#if PART(29)
+#if PART(10)
   reg_vec_ctors<bool>(E);
 #endif
-#if PART(30)
+#if PART(11)
   reg_mat_ctors<float>(E);
 #endif
-#if PART(31)
+#if PART(12)
   reg_mat_ctors<int>(E);
 #endif
-#if PART(32)
+#if PART(13)
   reg_mat_ctors<double>(E);
 #endif
 #endif
